@@ -10,8 +10,8 @@ import (
 
 	"golang.org/x/tools/go/ssa"
 
-	"tinkverif/consteval"
 	"tinkverif/bounds"
+	"tinkverif/consteval"
 	"tinkverif/core"
 	"tinkverif/guard"
 )
